@@ -273,7 +273,75 @@ def r12_4(ctx, rep):
 
 
 # -- seeded variants ---------------------------------------------------------
+@SPEC.rule(
+    "R12.5",
+    "no conversion memo keyed by printed text: model.py and generator.py hold no dict/set keyed by str(expr) / repr(expr) / a "
+    "formatted expression — CasADi prints constants with six digits, so an SX->MX (or any other) conversion memoised by text "
+    "returns the node built for 0.1234561 when asked for 0.1234562 and the two representations no longer agree",
+)
+def r12_5(ctx, rep):
+    from ._memo import no_text_keyed_tables
+    no_text_keyed_tables(ctx, rep, "R12.5", MODEL, "the CasADi model (representation conversions included)", 20)
+    no_text_keyed_tables(ctx, rep, "R12.5", GEN, "the CasADi generator", 20)
+
+
+STRUCTURE_API = ("is_op", "dep", "n_dep", "op", "is_binary", "is_unary")
+
+
+@SPEC.rule(
+    "R12.6",
+    "a for-loop's subscript values are computed, not pattern-matched: in ForLoop.register_indexed_symbol every value of the index "
+    "array is either the loop's own values (subscript is the loop variable) or the result of evaluating a ca.Function built from "
+    "the subscript expression over those values, and no method of ForLoop inspects the structure of a CasADi expression (is_op, "
+    "dep, n_dep, ...) — the operand order of an MX node is CasADi's choice (`k + 5` is stored as 5 + k, `5 - k` is not `k - 5`), so "
+    "a shortcut that reads the constant and the sign off the node maps some loops to other elements than the SX/MX evaluation does",
+)
+def r12_6(ctx, rep):
+    from ..pyutil import inlined
+    R = "R12.6"
+    ms = ctx.methods(GEN, "ForLoop", R)
+    fn = ms.get("register_indexed_symbol")
+    if fn is None:
+        raise MechanismMissing(R, "ForLoop.register_indexed_symbol not found")
+    site = GEN + ":ForLoop.register_indexed_symbol"
+    used = []
+    for name, m in ms.items():
+        for c in calls(m):
+            if isinstance(c.func, ast.Attribute) and c.func.attr in STRUCTURE_API:
+                used.append("%s: %s" % (name, norm(c)[:50]))
+    rep.ob(R, GEN + ":ForLoop", "no method of ForLoop takes a CasADi expression apart", not used, "; ".join(used[:4]))
+    # the array handed to index_function
+    sink = [c for c in calls(fn) if is_name(c.func, "index_function") and c.args]
+    if not sink:
+        raise MechanismMissing(R, "index_function(<indices>) call not found")
+    names = {x.id for x in ast.walk(sink[0].args[0]) if isinstance(x, ast.Name)}
+    body = [st for st in ast.walk(fn) if isinstance(st, ast.stmt)]
+    n = 0
+    for st in body:
+        if isinstance(st, ast.Assign) and len(st.targets) == 1 and isinstance(st.targets[0], ast.Name) and st.targets[0].id in names:
+            n += 1
+            v = inlined(st.value, body, keep=names)
+            txt = norm(v)
+            evaluated = any(isinstance(c, ast.Call) and (call_name(c) or "").endswith("Function") and any("index_expr" in norm(a) for a in c.args) for c in ast.walk(v)) \
+                and (".call(" in txt or "F(" in txt or "(self.values" in txt)
+            ok = txt == "self.values" or evaluated
+            rep.ob(R, site, "subscript values `%s = ...`" % st.targets[0].id, ok,
+                   "`%s` is neither the loop's own values nor the evaluation of a ca.Function of the subscript expression over them" % norm(st)[:90])
+    if n < 2:
+        raise MechanismMissing(R, "expected the two definitions of the index array (plain loop variable / general expression), found %d" % n)
+
+
 from ._mut import replace_in_func  # noqa: E402
+
+
+@SPEC.mutant("SX->MX conversion memoised by printed text", MODEL, "R12.5", "keyed by the printed form")
+def _m_textmemo(mod):
+    def edit(fn):
+        fn.body.insert(0, ast.parse("_seen = {}").body[0])
+        fn.body.insert(1, ast.parse("_seen.setdefault(str(self.time), self.time)").body[0])
+        return True
+
+    return mod if replace_in_func(mod, "Model.simplify", edit) else None
 
 
 @SPEC.mutant("unroll_loops guards a model store", GEN, "R12.3", "")
@@ -328,3 +396,17 @@ def _m5(mod):
         return False
 
     return mod if replace_in_func(mod, "Generator.exitForEquation", edit) else None
+
+
+@SPEC.mutant("shifted loop index read off the expression node", GEN, "R12.6", "ForLoop")
+def _m_shift(mod):
+    def edit(fn):
+        for n in ast.walk(fn):
+            if isinstance(n, ast.If) and "index_expr is not self.index_variable" in norm(n.test):
+                n.body = ast.parse("if index_expr.is_op(ca.OP_ADD):\n    indices = self.values + int(index_expr.dep(0))\nelse:\n    pass").body[:1] + n.body
+                n.body[0].orelse = n.body[1:]
+                n.body = n.body[:1]
+                return True
+        return False
+
+    return mod if replace_in_func(mod, "ForLoop.register_indexed_symbol", edit) else None
